@@ -68,7 +68,7 @@ def gen(rng, tier):
             for x in a + [r]:
                 if x[0] == 0 and x not in used:
                     used.append(x)
-        k = rng.choice([1, 1, 2])
+        k = rng.choice([1, 2, 2])
         cts = [ret] + [b for b in used if b != ret]
         rng.shuffle(cts)
         if ret not in cts[:k] and rng.random() < 0.7:
@@ -99,7 +99,10 @@ def gen(rng, tier):
         prob = 1 if rng.random() < 0.7 else 0
         wmode = rng.choice(["uniform", "hand"])
         gp = [dsl["prims"], dsl["forbidden"], dsl["request"], bound, min_var, n_gram, dsl["const_types"], ""]
-        cases.append({"kind": kind, "data": [gp, prob, wmode, rng.randrange(1, 10 ** 6), vt, uniq]})
+        c = {"kind": kind, "data": [gp, prob, wmode, rng.randrange(1, 10 ** 6), vt, uniq]}
+        if len(vt) >= 2 and rng.random() < 0.6:
+            c["two_step"] = 1          # one instantiate_constants call per type instead of one call
+        cases.append(c)
     return cases
 
 
@@ -266,7 +269,10 @@ def shrink(case):
     k = case["kind"]
 
     def mk(gp=gp, prob=prob, wmode=wmode, vt=vt, progs=progs):
-        return {"kind": k, "data": [gp, prob, wmode, wseed, vt, progs]}
+        c = {"kind": k, "data": [gp, prob, wmode, wseed, vt, progs]}
+        if case.get("two_step"):
+            c["two_step"] = 1
+        return c
 
     if len(progs) > 0:
         h = len(progs) // 2
